@@ -441,12 +441,12 @@ Proof. unfold sse_site. destruct (negb dead && sse_too_long body); congruence. Q
 
 Definition qweight (s : qst) : nat := match s with QStart _ => 1 | _ => 0 end.
 
-Lemma resp_run_spec m closed sl sevt : forall fuel chk s st0 body0 b,
+Lemma resp_run_spec m sl sevt : forall fuel closed chk s st0 body0 b,
   (2 * List.length b + qweight s < fuel)%nat ->
   resp_run fuel m closed sl sevt chk s st0 body0 b <> QOut /\
   (forall k pi bd b', resp_run fuel m closed sl sevt chk s st0 body0 b = QFail k pi bd b' -> k = HTTPExc).
 Proof.
-  induction fuel as [|fuel IH]; intros chk s st0 body0 b Hf; [lia|].
+  induction fuel as [|fuel IH]; intros closed chk s st0 body0 b Hf; [lia|].
   cbn [resp_run]. destruct s as [fresh| |h|st h|pi n|pi c body|pi body]; cbn [qweight] in Hf.
   - destruct b as [|x b']; [split; [discriminate|intros; discriminate]|].
     apply IH. cbn [qweight]. lia.
@@ -541,7 +541,7 @@ Proof.
   destruct (negb (k_waited k) && (0 <? k_queued k)); cbn zeta beta iota;
   match goal with |- context [if negb ?w then _ else _] => destruct (negb w) end; try discriminate;
   match goal with |- context [resp_run ?f ?m ?c ?sl ?se ?chk ?s ?st ?bd ?b] =>
-    destruct (resp_run_spec m c sl se f chk s st bd b) as [Hout Hfail];
+    destruct (resp_run_spec m sl se f c chk s st bd b) as [Hout Hfail];
     [cbn [k_buf k_pst]; destruct (k_pst k); cbn [qweight]; lia|];
     destruct (resp_run f m c sl se chk s st bd b) as [s' bd' b'|k' pi bd' b'|pi bd' b'|] eqn:E
   end; try discriminate; try congruence;
